@@ -6,6 +6,7 @@ pub mod alloc;
 pub mod c02;
 pub mod c03;
 pub mod c04;
+pub mod c05;
 pub mod c07;
 pub mod c08;
 pub mod c25;
@@ -24,6 +25,7 @@ pub fn dispatch(ctx: &mut Ctx) {
         "C02" => c02::run(ctx),
         "C03" => c03::run(ctx),
         "C04" => c04::run(ctx),
+        "C05" => c05::run(ctx),
         "C06" => ops::run_c06(ctx),
         "C07" => c07::run_c07(ctx),
         "C08" => c08::run_c08(ctx),
